@@ -77,7 +77,10 @@ var tmpls = map[string]tmpl{
 	"one":  {name: "one", consumer: "U", providers: []string{"P1", "P2"}, timeout: 2},
 	"rep":  {name: "rep", consumer: "U", providers: []string{"P1", "P3"}, timeout: 4, repeated: true, freq: 4, total: 2},
 	"poor": {name: "poor", consumer: "V", providers: []string{"P2"}, timeout: 2, repeated: true, freq: 3, total: -1},
-	"mod":  {name: "mod", consumer: "U", providers: []string{"P1", "P2"}, timeout: 2, repeated: true, freq: 2, total: 2, module: true, threshold: 2},
+	// a second context of the poor consumer: together with "poor" it costs more than V holds, so that when both
+	// are due in one block the order in which the end-blocker takes them decides which one is served
+	"poor2": {name: "poor2", consumer: "V", providers: []string{"P3"}, timeout: 4, repeated: true, freq: 5, total: -1},
+	"mod":   {name: "mod", consumer: "U", providers: []string{"P1", "P2"}, timeout: 2, repeated: true, freq: 2, total: 2, module: true, threshold: 2},
 }
 
 type mctx struct {
@@ -86,7 +89,7 @@ type mctx struct {
 	Created   int64
 	LastBatch int64 // height of the last observed batch start (0 = none yet)
 	Batches   uint64
-	Disturbed bool // paused/started by the consumer since the last batch: the next batch's height is not asserted
+	Disturbed bool // a scheduled step (batch expiry or next batch) fell into a paused span: the next batch's height is not asserted
 	Modified  bool // settings updated by the consumer: the property's schedule clause no longer applies
 	Gone      bool
 	// per batch: number of responses carrying an output (module contexts)
@@ -383,11 +386,11 @@ func (d *Driver) nextDue(e *mc.Env, s *mc.State) int64 {
 // ---------------------------------------------------------------- apply
 
 var adoptC13 = map[string]string{
-	"C08/batch-off-schedule/":            "C13/service/due-processing/batch-off-schedule/",
-	"C08/expired-request-still-active":   "C13/service/due-processing/expired-request-still-active",
-	"C08/second-outcome":                 "C13/service/due-processing/second-outcome",
-	"C08/several-batches-in-one-block":   "C13/service/due-processing/several-batches-in-one-block",
-	"C08/one-shot-not-removed":           "C13/service/due-processing/one-shot-not-removed",
+	"C08/batch-off-schedule/":          "C13/service/due-processing/batch-off-schedule/",
+	"C08/expired-request-still-active": "C13/service/due-processing/expired-request-still-active",
+	"C08/second-outcome":               "C13/service/due-processing/second-outcome",
+	"C08/several-batches-in-one-block": "C13/service/due-processing/several-batches-in-one-block",
+	"C08/one-shot-not-removed":         "C13/service/due-processing/one-shot-not-removed",
 }
 
 func (d *Driver) sel(fs []mc.Finding) []mc.Finding {
@@ -658,7 +661,9 @@ func (d *Driver) apply(e *mc.Env, s *mc.State, op mc.Op) []mc.Finding {
 			fs = append(fs, mc.F("C08/context-control-by-non-consumer-accepted/"+od.kind, "%s accepted", op.Name))
 			return fs
 		}
-		c.Disturbed = true
+		// pausing and starting do not by themselves move the schedule: only a scheduled step that falls into a
+		// paused span (the batch's expiry, which would have scheduled the next batch, or the next batch itself)
+		// is lost; the block handler marks the context Disturbed when that happens
 		if od.kind == "updatectx" {
 			c.Modified = true
 		}
@@ -790,6 +795,12 @@ func (d *Driver) oneBlock(e *mc.Env, s *mc.State, dt time.Duration) []mc.Finding
 			fs = append(fs, mc.F("C08/request-height-differs", "request issued in end-block %d records request height %d", h, r.ReqHeight))
 		}
 	}
+	if nExpired > 0 && (got.Get("deposit-escrow", denom).Cmp(exp.Get("deposit-escrow", denom)) != 0 || got.Get("request-escrow", denom).Cmp(exp.Get("request-escrow", denom)) != 0) {
+		// the expiry outcome of a request is "provider slashed, consumer refunded": the deposit escrow moves in an
+		// end-block only by slashing, the request escrow only by refunds of expired and fees of new requests
+		fs = append(fs, mc.F("C08/expired-request-outcome-missing", "end-block %d: %d requests reached their expiration height; deposit escrow moved %s (slashes require %s), request escrow moved %s (refunds and new fees require %s)",
+			h, nExpired, got.Get("deposit-escrow", denom), exp.Get("deposit-escrow", denom), got.Get("request-escrow", denom), exp.Get("request-escrow", denom)))
+	}
 	if !got.Equal(exp) {
 		sig := "C07/block-settlement-differs"
 		// discriminate the consumer being charged something else than the fees recorded on the new requests
@@ -865,6 +876,13 @@ func (d *Driver) oneBlock(e *mc.Env, s *mc.State, dt time.Duration) []mc.Finding
 			c.LastBatch = h
 			c.Disturbed = false
 			c.Outputs = 0
+		} else if due && postOK {
+			// the due batch was not issued (paused by the consumer or for lack of funds): the next start re-anchors
+			c.Disturbed = true
+		}
+		if t.repeated && c.Batches >= 1 && prc.State == svctypes.PAUSED && h == c.LastBatch+t.timeout && newBatches == 0 {
+			// the batch expired while the context was paused: no follow-up batch was scheduled
+			c.Disturbed = true
 		}
 		if !postOK {
 			c.Gone = true
@@ -935,10 +953,12 @@ const rule = "state with an active request or unwithdrawn earned fees; distinct 
 // Parts for mode C07 / C08.
 func Parts(mode string) func() []mc.Part {
 	return func() []mc.Part {
+		// conformance: the seam runs under the signed transactions' own bytes (context / request ids derive from them)
+		conf := &mc.ConfOpts{Stores: []string{"service"}, MaxPaths: 120, SignInSeam: true, Depth: 3}
 		if mode == "C07" {
 			return []mc.Part{
-				mc.ExplorePart("fees", New(Variant{Name: "fees", Mode: mode, Tmpl: []string{"one", "rep", "poor"}, Withdraw: true}), 8, 10, true, rule),
-				mc.ExplorePart("deposits", New(Variant{Name: "deposits", Mode: mode, Tmpl: []string{"one"}, BindingOps: true}), 7, 9, true, rule),
+				mc.ExplorePartC("fees", New(Variant{Name: "fees", Mode: mode, Tmpl: []string{"one", "rep", "poor"}, Withdraw: true}), 8, 10, true, rule, conf),
+				mc.ExplorePartC("deposits", New(Variant{Name: "deposits", Mode: mode, Tmpl: []string{"one"}, BindingOps: true}), 7, 9, true, rule, conf),
 			}
 		}
 		if mode == "C13" {
@@ -948,8 +968,8 @@ func Parts(mode string) func() []mc.Part {
 			}
 		}
 		return []mc.Part{
-			mc.ExplorePart("outcomes", New(Variant{Name: "outcomes", Mode: mode, Tmpl: []string{"one", "rep"}, ControlOps: true}), 6, 8, true, rule),
-			mc.ExplorePart("schedule", New(Variant{Name: "schedule", Mode: mode, Tmpl: []string{"rep", "poor"}}), 9, 12, true, rule),
+			mc.ExplorePartC("outcomes", New(Variant{Name: "outcomes", Mode: mode, Tmpl: []string{"one", "rep"}, ControlOps: true}), 6, 8, true, rule, conf),
+			mc.ExplorePartC("schedule", New(Variant{Name: "schedule", Mode: mode, Tmpl: []string{"rep", "poor"}}), 9, 12, true, rule, conf),
 			mc.ExplorePart("callbacks", New(Variant{Name: "callbacks", Mode: mode, Tmpl: []string{"mod"}}), 9, 12, true, rule),
 		}
 	}
